@@ -4,7 +4,10 @@ import (
 	"fmt"
 	"grog/internal/config"
 	"grog/internal/model"
+	"os"
+	"path/filepath"
 	"slices"
+	"strconv"
 	"strings"
 )
 
@@ -30,6 +33,13 @@ func GetTargetChangeHash(target model.Target, dependencyHashes []string) (string
 // hashTargetDefinition computes the configured hash of a single file.
 func hashTargetDefinition(target model.Target, dependencyHashes []string) (string, error) {
 	hasher := GetHasher()
+
+	// The components below are written back-to-back and lists are joined with ",".
+	// Writing their layout first makes the hashed stream decode uniquely, so that
+	// two different target states can never produce the same bytes.
+	if _, layoutErr := hasher.WriteString(componentLayout(target, dependencyHashes)); layoutErr != nil {
+		return "", layoutErr
+	}
 
 	_, err := hasher.WriteString(target.Label.String())
 	_, err = hasher.WriteString(target.Command)
@@ -64,4 +74,78 @@ func sortedKeyValue(m map[string]string) string {
 	}
 
 	return sorted(entries)
+}
+
+// componentLayout describes the structure of everything that enters the change hash:
+// the length of every component and list element (in the same sorted order in which
+// they are hashed) and the size of every input file ("-" if it does not exist).
+// It only consists of digits and the separators ",=-|" and ends with ";"
+// which makes it self-delimiting at the start of the hashed stream.
+func componentLayout(target model.Target, dependencyHashes []string) string {
+	var layout strings.Builder
+	writeLength := func(s string) {
+		layout.WriteString(strconv.Itoa(len(s)))
+		layout.WriteString("|")
+	}
+	writeListLengths := func(list []string) []string {
+		sortedList := slices.Clone(list)
+		slices.Sort(sortedList)
+		layout.WriteString(strconv.Itoa(len(sortedList)))
+		for _, element := range sortedList {
+			layout.WriteString(",")
+			layout.WriteString(strconv.Itoa(len(element)))
+		}
+		layout.WriteString("|")
+		return sortedList
+	}
+
+	writeLength(target.Label.String())
+	writeLength(target.Command)
+	sortedInputs := writeListLengths(target.Inputs)
+	writeListLengths(target.OutputDefinitions())
+	writeListLengths(dependencyHashes)
+
+	type fingerprintEntry struct {
+		entry     string
+		keyLength int
+	}
+	fingerprintEntries := make([]fingerprintEntry, 0, len(target.Fingerprint))
+	for key, value := range target.Fingerprint {
+		fingerprintEntries = append(fingerprintEntries, fingerprintEntry{fmt.Sprintf("%s=%s", key, value), len(key)})
+	}
+	slices.SortFunc(fingerprintEntries, func(a, b fingerprintEntry) int {
+		if order := strings.Compare(a.entry, b.entry); order != 0 {
+			return order
+		}
+		return a.keyLength - b.keyLength
+	})
+	layout.WriteString(strconv.Itoa(len(fingerprintEntries)))
+	for _, entry := range fingerprintEntries {
+		layout.WriteString(",")
+		layout.WriteString(strconv.Itoa(entry.keyLength))
+		layout.WriteString("=")
+		layout.WriteString(strconv.Itoa(len(entry.entry) - entry.keyLength - 1))
+	}
+	layout.WriteString("|")
+
+	if target.IsMultiplatformCache() {
+		layout.WriteString("-|")
+	} else {
+		writeLength(config.Global.GetPlatform())
+	}
+
+	// Input file contents are hashed as one concatenated stream (see HashFiles):
+	// record where each file ends and whether it exists at all.
+	absolutePackagePath := config.GetPathAbsoluteToWorkspaceRoot(target.Label.Package)
+	for _, input := range sortedInputs {
+		info, err := os.Stat(filepath.Join(absolutePackagePath, input))
+		if err != nil {
+			layout.WriteString("-,")
+			continue
+		}
+		layout.WriteString(strconv.FormatInt(info.Size(), 10))
+		layout.WriteString(",")
+	}
+	layout.WriteString(";")
+	return layout.String()
 }
